@@ -337,7 +337,7 @@ def RemovedPending (c c' : List Block) (pend' : List Nat) : Prop :=
   ∀ x ∈ c, x ∉ c' → ∀ t ∈ x.txs, t ∈ pend' ∨ ∃ y ∈ c', t ∈ y.txs
 
 theorem RemovedPending.of_suffix {c c' : List Block} (h : c <:+ c') (p : List Nat) : RemovedPending c c' p :=
-  fun x hx hn => absurd (suffix_mem h hx) hn
+  fun _ hx hn => absurd (suffix_mem h hx) hn
 
 /-- the reorg path: remove down to the fork point, re-enter, insert -/
 theorem reorg_weight {T : Nat → Option Block} (vt : ValidTree T) (fuel : Nat) (s1 : St) (b anc : Block) (c : List Block)
